@@ -113,6 +113,12 @@ class DotBasic(CalculusFunction):
         else:
             return r
 
+def _first_component(u):
+    """In 1D a 'vector' may be given as a scalar expression (e.g. Grad_1d returns dx(u))."""
+    if isinstance(u, (Tuple, list, tuple, Matrix, ImmutableDenseMatrix)):
+        return u[0]
+    return u
+
 class Dot_1d(DotBasic):
 
     @classmethod
@@ -128,7 +134,7 @@ class Dot_1d(DotBasic):
         u = _args[0]
         v = _args[1]
 
-        return u[0] * v[0]
+        return _first_component(u) * _first_component(v)
 
 class Dot_2d(DotBasic):
 
@@ -285,6 +291,24 @@ class InnerBasic(CalculusFunction):
             return Basic.__new__(cls, *args, **options)
         else:
             return r
+
+class Inner_1d(InnerBasic):
+
+    @classmethod
+    def eval(cls, *_args):
+        """."""
+
+        if not _args:
+            return
+
+        if not( len(_args) == 2):
+            raise ValueError('Expecting two arguments')
+
+        u = _args[0]
+        v = _args[1]
+
+        # TODO add conjugate
+        return _first_component(u) * _first_component(v)
 
 class Inner_2d(InnerBasic):
 
